@@ -22,6 +22,7 @@ typedef struct {
 	int issuer_mismatch;  /* issuer field names somebody else */
 	char cn[12];
 	uint8_t serial[20]; size_t serial_len;
+	int subj_extra, iss_extra; /* one more RDN (OU=X) behind the CN of the subject / of the issuer: two-RDN names, so that a one-RDN name is a proper prefix of them */
 } cert_spec;
 
 static SM2_KEY CK[12]; static int ck_ready;           /* deterministic key pool */
@@ -40,6 +41,7 @@ static int make_cert(const cert_spec *s, const SM2_KEY *subject_key, const SM2_K
 	if (s->issuer_mismatch == 2) { static const uint8_t extra[] = { 0x31, 0x0a, 0x30, 0x08, 0x06, 0x03, 0x55, 0x04, 0x0b, 0x13, 0x01, 0x58 }; memcpy(iss + il, extra, sizeof extra); il += sizeof extra; }
 	else if (s->issuer_mismatch == 3) { der_cur c = { iss, il }; size_t keep = 0; int tag; const uint8_t *v; size_t vl; while (c.n) { const uint8_t *st = c.p; if (!der_tlv(&c, &tag, &v, &vl, NULL)) break; if (c.n) keep = (size_t)(c.p - iss); (void)st; } if (keep) il = keep; }
 	else if (s->issuer_mismatch == 4) { iss[il - 1] ^= 0x01; }
+	{ static const uint8_t extra[] = { 0x31, 0x0a, 0x30, 0x08, 0x06, 0x03, 0x55, 0x04, 0x0b, 0x13, 0x01, 0x58 }; if (s->subj_extra) { memcpy(subj + sl, extra, sizeof extra); sl += sizeof extra; } if (s->iss_extra) { memcpy(iss + il, extra, sizeof extra); il += sizeof extra; } }
 	if (s->bc && x509_exts_add_basic_constraints(exts, &el, sizeof exts, X509_critical, s->bc == 2, s->pathlen) != 1) return -2;
 	if (s->ku >= 0 && x509_exts_add_key_usage(exts, &el, sizeof exts, s->ku_crit ? X509_critical : X509_non_critical, s->ku) != 1) return -3;
 	if (s->eku) { int kp[2]; size_t n = 1; kp[0] = s->eku == 1 ? OID_kp_server_auth : s->eku == 2 ? OID_kp_client_auth : s->eku == 3 ? OID_any_extended_key_usage : OID_kp_server_auth; if (s->eku == 4) { kp[1] = OID_kp_client_auth; n = 2; } if (x509_exts_add_ext_key_usage(exts, &el, sizeof exts, X509_non_critical, kp, n) != 1) return -4; }
